@@ -62,7 +62,16 @@ where
     /// let _inner = writer.finish()?;
     /// # Ok::<(), io::Error>(())
     /// ```
-    pub fn finish(self) -> io::Result<W> {
+    pub fn finish(mut self) -> io::Result<W> {
+        // `GzEncoder` does not retry interrupted writes to the underlying writer.
+        loop {
+            match self.inner.try_finish() {
+                Ok(()) => break,
+                Err(e) if e.kind() == io::ErrorKind::Interrupted => {}
+                Err(e) => return Err(e),
+            }
+        }
+
         self.inner.finish()
     }
 
